@@ -12,7 +12,7 @@ template<class K, size_t Eps, size_t EpsRec, class Floating>
 void comp_case(Ctx &c) {
     using Idx = pgm::CompressedPGMIndex<K, Eps, EpsRec, Floating>;
     bool chunked = c.case_idx % 64 == 63 && sizeof(K) >= 4;
-    auto sc = make_static_case<K>(c, Eps, chunked, 5000, c.thorough() ? (size_t(1) << 17) : (size_t(1) << 16));
+    auto sc = make_static_case<K>(c, Eps, chunked, 5000, c.thorough() ? (size_t(1) << 17) : (size_t(1) << 16), EpsRec);
     NoExtra ex;
     run_static<K, Idx, Eps>(c, sc, variant_which(c), ex);
 }
